@@ -223,6 +223,41 @@ func c09ResponseSubsets(c *Ctx) {
 		r := buildResponse(rs, Enc(a, st))
 		addRun(c, g, &Run{Cfg: cfg, IDs: []string{"req-1"}, Now: now, Cur: cfg.AcsURL, Doc: r}, map[string]string{"class": "decrypted-plaintext", "st": fmt.Sprint(st)}, true)
 	}
+	// attacker-built EncryptedAssertions (anyone can encrypt to the SP's certificate) with cipher values of
+	// every boundary length: reached before any signature is checked
+	for _, nb := range []int{0, 1, 15, 16, 17, 31, 32, 33, 47, 48, 64} {
+		for _, fill := range []byte{0, 0x10, 0xff} {
+			n++
+			rs, as := validSpecs(cfg, now, fmt.Sprint(n))
+			a := buildAssertion(as)
+			SignInto(a, 0)
+			r := buildResponse(rs, EncRawCipher(a, nb, fill))
+			addRun(c, g, &Run{Cfg: cfg, IDs: []string{"req-1"}, Now: now, Cur: cfg.AcsURL, Doc: r},
+				map[string]string{"class": "cipher-value-length", "bytes": fmt.Sprint(nb), "fill": fmt.Sprint(fill)}, true)
+		}
+	}
+	// unusual KeyInfo contents under every way of configuring trust
+	for _, tr := range c01Trusts() {
+		tcfg := defaultCfg()
+		tr.set(&tcfg)
+		for kind := 0; kind <= 4; kind++ {
+			for _, onResp := range []bool{true, false} {
+				n++
+				rs, as := validSpecs(tcfg, now, fmt.Sprint(n))
+				a := buildAssertion(as)
+				var r *Node
+				if onResp {
+					r = buildResponse(rs, a)
+					SignInto(r, 0).SetKeyInfoOdd(kind)
+				} else {
+					SignInto(a, 0).SetKeyInfoOdd(kind)
+					r = buildResponse(rs, a)
+				}
+				addRun(c, g, &Run{Cfg: tcfg, IDs: []string{"req-1"}, Now: now, Cur: tcfg.AcsURL, Doc: r},
+					map[string]string{"class": "odd-keyinfo", "trust": tr.name, "kind": fmt.Sprint(kind), "on_response": fmt.Sprint(onResp)}, true)
+			}
+		}
+	}
 	{ // plaintext whose root is not an Assertion (signed by the IdP all the same)
 		n++
 		rs, as := validSpecs(cfg, now, fmt.Sprint(n))
